@@ -123,6 +123,29 @@ class Canon:
                         self.changed = True
                         i += len(new)
                         continue
+                # `a, b = (x1, y1) if c else (x2, y2)` with a call-free test -> one conditional per target
+                if (
+                    isinstance(s, ast.Assign)
+                    and len(s.targets) == 1
+                    and isinstance(s.targets[0], (ast.Tuple, ast.List))
+                    and isinstance(s.value, ast.IfExp)
+                    and all(isinstance(b, (ast.Tuple, ast.List)) and len(b.elts) == len(s.targets[0].elts) and not any(isinstance(v, ast.Starred) for v in b.elts) for b in (s.value.body, s.value.orelse))
+                    and all(isinstance(t, ast.Name) for t in s.targets[0].elts)
+                    and not any(isinstance(x, (ast.Call, ast.NamedExpr, ast.Await)) for x in ast.walk(s.value.test))
+                ):
+                    tnames = {t.id for t in s.targets[0].elts}
+                    rnames = {n.id for n in ast.walk(s.value) if isinstance(n, ast.Name)}
+                    if not (tnames & rnames) and len(tnames) == len(s.targets[0].elts):
+                        new = []
+                        for k, t in enumerate(s.targets[0].elts):
+                            val = ast.IfExp(test=copy.deepcopy(s.value.test), body=s.value.body.elts[k], orelse=s.value.orelse.elts[k])
+                            new.append(ast.copy_location(ast.Assign(targets=[ast.Name(id=t.id, ctx=ast.Store())], value=ast.copy_location(val, s.value)), s))
+                        for x in new:
+                            ast.fix_missing_locations(x)
+                        lst[i : i + 1] = new
+                        self.changed = True
+                        i += len(new)
+                        continue
                 i += 1
 
     # -------------------------------------------------------------------- K
